@@ -89,4 +89,9 @@ def girardArea (vs : List V3) : Except String Float :=
 /-- The tail of `_calculate_borders` in dimension 4. -/
 def borderArea (projected : List V3) : Except String Float := girardArea (sortCcw projected)
 
+/-- `_calculate_borders` from the rank assertion on: `assert np.linalg.matrix_rank(shared_vertices) == dim - 1`
+    (`rank` is the external numpy result), then the area of the projected polygon. -/
+def borderAreaChecked (rank dim : Nat) (projected : List V3) : Except String Float :=
+  if rank = dim - 1 then borderArea projected else throw "AssertionError"
+
 end Molgri.FaceArea
